@@ -78,7 +78,7 @@ class GroupSpec(SeqSpec):
             if rng.random() < 0.5:
                 ops.append(["release", r])
                 ops.append(["quiesce"])
-        ops += self.gen_ending(rng, [r])
+        ops += self.gen_ending(rng, [r], timer_late=(kind != "pot"))
         return ops
 
     def gen_periodic(self, rng):
@@ -108,10 +108,10 @@ class GroupSpec(SeqSpec):
             if rng.random() < 0.3:
                 ops.append(["open", r])
                 ops.append(["await", r, n + 3])
-        ops += self.gen_ending(rng, [r])
+        ops += self.gen_ending(rng, [r], timer_late=False)
         return ops
 
-    def gen_ending(self, rng, regs):
+    def gen_ending(self, rng, regs, timer_late=True):
         """stop the group in one of several ways, possibly racing late registrations"""
         ops = []
         how = rng.choice(["saw", "saw", "saw-race", "stop-then-saw", "cancel", "cancel-race", "none"])
@@ -120,7 +120,8 @@ class GroupSpec(SeqSpec):
             ops.append(self._stop(True, True))
         elif how == "saw-race":
             members = [self._stop(True)]
-            kinds = [rng.choice(["do", "trigger", "periodic", "pot"])]
+            # at most one timer loop is in motion at a time (keeps the matcher's state space small)
+            kinds = [rng.choice(["do", "trigger", "periodic", "pot"] if timer_late else ["do", "trigger"])]
             if rng.random() < 0.5:
                 kinds.append(rng.choice(["do", "trigger"]))
             for kind in kinds:
@@ -216,7 +217,7 @@ class GroupSpec(SeqSpec):
             else:
                 ops.append(["quiesce"])
         ops.append(["quiesce"])      # let every loop settle (parked or held at its gate) before the stop race
-        ops += self.gen_ending(rng, [g[1] for g in regs])
+        ops += self.gen_ending(rng, [g[1] for g in regs], timer_late=not timer_used)
         return ops
 
     def gen(self, rng, tier, scale):
